@@ -6,6 +6,7 @@ import (
 	"fmt"
 	"os"
 	"path/filepath"
+	"regexp"
 	"runtime"
 	"strings"
 	"sync"
@@ -25,15 +26,20 @@ import (
 type ChartJ struct {
 	Name string `json:"name"`
 	Vals Tree   `json:"vals"`
+	// Docs, when present: values.yaml is written as these YAML documents ("---" between them);
+	// Vals is then what the specification expects them to amount to
+	Docs []Tree `json:"docs,omitempty"`
 }
 
 // Case is a C04 case as exported by spec/ValuesMC.tla (fields the harness does not need are ignored).
 type Case struct {
-	ID     string              `json:"id"`
-	Fam    string              `json:"fam"`
-	Charts []ChartJ            `json:"charts"`
-	Files  []Tree              `json:"files"`
-	Flags  map[string][]string `json:"flags"`
+	ID     string   `json:"id"`
+	Fam    string   `json:"fam"`
+	Charts []ChartJ `json:"charts"`
+	Files  []Tree   `json:"files"`
+	// FileDocs[i], when present and non-empty: file i is written as these YAML documents
+	FileDocs [][]Tree            `json:"filedocs,omitempty"`
+	Flags    map[string][]string `json:"flags"`
 }
 
 type Res struct {
@@ -52,6 +58,7 @@ type Obs struct {
 	Scopes []Tree `json:"scopes"` // .Values seen by the probe template of every chart level (root first)
 	Unmod  Res    `json:"unmod"`  // chart defaults and the caller's map are deep-equal before / after
 	Panic  string `json:"panic"`
+	CLI    CLIObs `json:"cli"` // the same inputs given to a real `helm template` command line (family cli)
 	// the inputs as the harness decoded them (compared with the case by the monitor)
 	Echo struct {
 		Charts []ChartJ `json:"charts"`
@@ -59,18 +66,36 @@ type Obs struct {
 	} `json:"echo"`
 }
 
+// CLIObs: what `helm template rel <chart dir> -f ... --set ...` (pkg/cmd: flag parsing included) rendered
+type CLIObs struct {
+	Ran    bool     `json:"ran"`
+	OK     bool     `json:"ok"`
+	Err    string   `json:"err"`
+	Args   []string `json:"args"`
+	Scopes []Tree   `json:"scopes"` // .Values seen by the probe of every chart level
+}
+
 const probeTpl = `{{ toJson .Values }}`
 
 // BuildChart builds the chart chain of a case through the real loader: values.yaml of every level is
 // written as YAML text and parsed by helm.
 func BuildChart(levels []ChartJ, extra map[string]string, probes bool) (*chart.Chart, error) {
+	files, err := chartFiles(levels, extra, probes)
+	if err != nil {
+		return nil, err
+	}
+	return loader.LoadFiles(files)
+}
+
+// chartFiles are the files of the chart chain of a case (paths relative to the root chart's directory).
+func chartFiles(levels []ChartJ, extra map[string]string, probes bool) ([]*loader.BufferedFile, error) {
 	var files []*loader.BufferedFile
 	prefix := ""
 	for i, lv := range levels {
 		if i > 0 {
 			prefix += "charts/" + lv.Name + "/"
 		}
-		vy, err := yaml.Marshal(lv.Vals.ToMap())
+		vy, err := yamlDocs(lv.Vals, lv.Docs)
 		if err != nil {
 			return nil, err
 		}
@@ -84,7 +109,26 @@ func BuildChart(levels []ChartJ, extra map[string]string, probes bool) (*chart.C
 	for n, d := range extra {
 		files = append(files, &loader.BufferedFile{Name: n, Data: []byte(d)})
 	}
-	return loader.LoadFiles(files)
+	return files, nil
+}
+
+// yamlDocs is the text of a values file: one document, or several separated by "---"
+func yamlDocs(single Tree, docs []Tree) ([]byte, error) {
+	if len(docs) == 0 {
+		return yaml.Marshal(single.ToMap())
+	}
+	var out []byte
+	for i, d := range docs {
+		b, err := yaml.Marshal(d.ToMap())
+		if err != nil {
+			return nil, err
+		}
+		if i > 0 {
+			out = append(out, []byte("---\n")...)
+		}
+		out = append(out, b...)
+	}
+	return out, nil
 }
 
 func chartLevels(ch *chart.Chart) []*chart.Chart {
@@ -114,12 +158,18 @@ func parseProbe(s string) (Tree, error) {
 	return FromGo(v), nil
 }
 
+var fileRef = regexp.MustCompile(`=@[A-Za-z0-9_]+`)
+
 // Options builds the real values.Options of a case: value files are written to dir, "@name" in a
 // --set-file expression is replaced by the path of a file whose content is name.
 func Options(c *Case, dir string) (*clivalues.Options, error) {
 	o := &clivalues.Options{}
 	for i, f := range c.Files {
-		b, err := yaml.Marshal(f.ToMap())
+		var docs []Tree
+		if i < len(c.FileDocs) {
+			docs = c.FileDocs[i]
+		}
+		b, err := yamlDocs(f, docs)
 		if err != nil {
 			return nil, err
 		}
@@ -134,13 +184,17 @@ func Options(c *Case, dir string) (*clivalues.Options, error) {
 	o.StringValues = c.Flags["str"]
 	o.LiteralValues = c.Flags["lit"]
 	for _, e := range c.Flags["file"] {
-		if i := strings.Index(e, "=@"); i >= 0 {
-			name := e[i+2:]
+		var werr error
+		e = fileRef.ReplaceAllStringFunc(e, func(m string) string {
+			name := m[2:]
 			p := filepath.Join(dir, name)
 			if err := os.WriteFile(p, []byte(name), 0o644); err != nil {
-				return nil, err
+				werr = err
 			}
-			e = e[:i+1] + p
+			return "=" + p
+		})
+		if werr != nil {
+			return nil, werr
 		}
 		o.FileValues = append(o.FileValues, e)
 	}
@@ -152,6 +206,7 @@ func RunCase(c *Case, dir string) (obs Obs) {
 	obs.ID = c.ID
 	obs.Merge.V, obs.Root.V, obs.Coal.V, obs.Render.V, obs.Unmod.V = Unset(), Unset(), Unset(), Unset(), Unset()
 	obs.Scopes = []Tree{}
+	obs.CLI.Args, obs.CLI.Scopes = []string{}, []Tree{}
 	obs.Echo.Charts, obs.Echo.Files = c.Charts, c.Files
 	if obs.Echo.Files == nil {
 		obs.Echo.Files = []Tree{}
@@ -171,6 +226,10 @@ func RunCase(c *Case, dir string) (obs Obs) {
 	if err != nil {
 		obs.Panic = "harness: " + err.Error()
 		return
+	}
+
+	if c.Fam == "cli" {
+		obs.CLI = runTemplateCLI(c, opts, dir)
 	}
 
 	// 1. the user-supplied values
